@@ -48,6 +48,8 @@ def _groups(lst):
 def c08(sc, tr):
     res = _new()
     p = sc['params']
+    if sc.get('giant'):
+        res['probes']['giant-lane(n1>65535)'] = 1
     mp = p['mp']
     fail = gen_failed(tr)
     if fail is not None:
@@ -205,6 +207,8 @@ def c08(sc, tr):
 def c12(sc, tr):
     res = _new()
     p = sc['params']
+    if sc.get('giant'):
+        res['probes']['giant-lane(n1>65535)'] = 1
     mp = p['mp']
     fail = gen_failed(tr)
     if fail is not None:
